@@ -16,6 +16,8 @@ import ast, os, glob, re
 from harness.extract import generator, ExtractError, lean_str, unparse
 
 LOOP = 'starsim/loop.py'
+SIMF = 'starsim/sim.py'
+MODF = 'starsim/modules.py'
 PREL = 'starsim/people.py'
 LIFE = ('ti_dead', 'alive')
 PEOPLE_NAMES = ('people', 'ppl')
@@ -147,7 +149,71 @@ def life_writes(repo):
     return out
 
 
-@generator('PeoplePlan', [LOOP, PREL])
+def scale_mode(fn, label):
+    """ how finalisation applies the population scale factor to the recorded series it loops over:
+        'replace' = the series is replaced by the product (a new float series);
+        'inplace' = the product is written into the existing array (truncates when that array holds integers) """
+    found = []
+    for loop in ast.walk(fn):
+        if not (isinstance(loop, ast.For) and unparse(loop.iter).endswith('results.items()')):
+            continue
+        if not (isinstance(loop.target, ast.Tuple) and len(loop.target.elts) == 2):
+            raise ExtractError(f'{label}: loop over results.items() does not unpack (key, result)')
+        key, var = (unparse(e) for e in loop.target.elts)
+        container = unparse(loop.iter)[:-len('.items()')]
+
+        tainted = set()       # locals holding the scaled product (`scaled = res * pop_scale`)
+
+        def mentions(text):
+            return 'pop_scale' in text or any(re.search(r'(?<![\w.])' + re.escape(t) + r'(?![\w])', text) for t in tainted)
+
+        def visit(stmts, guard):
+            for st in stmts:
+                if isinstance(st, ast.If):
+                    if st.orelse: raise ExtractError(f'{label}: if/else inside the scaling loop')
+                    visit(st.body, (guard + ' and ' if guard else '') + unparse(st.test)); continue
+                if not mentions(unparse(st)):
+                    continue
+                if isinstance(st, ast.Assign) and len(st.targets) == 1 and isinstance(st.targets[0], ast.Name) and st.targets[0].id != var:
+                    tainted.add(st.targets[0].id); continue
+                if isinstance(st, ast.Assign) and len(st.targets) == 1 and isinstance(st.targets[0], ast.Subscript):
+                    base = unparse(st.targets[0].value); idx = unparse(st.targets[0].slice)
+                    if base == container and idx == key: found.append(('replace', guard)); continue
+                    if base == var or base.startswith(var + '.'): found.append(('inplace', guard)); continue
+                if isinstance(st, ast.AugAssign):
+                    t = st.target
+                    while isinstance(t, ast.Subscript): t = t.value
+                    tb = unparse(t)
+                    if tb == var or tb.startswith(var + '.') or tb == container: found.append(('inplace', guard)); continue
+                raise ExtractError(f'{label}: cannot classify how the scale factor is applied in `{unparse(st)[:80]}`')
+        visit(loop.body, '')
+    if len(found) != 1:
+        raise ExtractError(f'{label}: expected exactly one statement applying pop_scale to the recorded series, found {found}')
+    return found[0]
+
+
+def sim_results(fn):
+    """ (name, dtype, scale) of the series Sim.init_results creates """
+    kws = {}
+    for st in fn.body:
+        if isinstance(st, ast.Assign) and isinstance(st.targets[0], ast.Name) and isinstance(st.value, ast.Call) and unparse(st.value.func) == 'dict':
+            kws[st.targets[0].id] = {k.arg: unparse(k.value) for k in st.value.keywords if k.arg}
+    out = []
+    for n in ast.walk(fn):
+        if isinstance(n, ast.Call) and unparse(n.func) == 'ss.Result' and n.args and isinstance(n.args[0], ast.Constant):
+            kw = {}
+            for k in n.keywords:
+                if k.arg is None:
+                    kw.update(kws.get(unparse(k.value), {'dtype': '?', 'scale': '?'}))
+                else:
+                    kw[k.arg] = unparse(k.value)
+            out.append((n.args[0].value, kw.get('dtype', 'float'), kw.get('scale', 'True')))
+    if not out:
+        raise ExtractError('Sim.init_results: no ss.Result(...) found')
+    return out
+
+
+@generator('PeoplePlan', [LOOP, PREL, SIMF, MODF])
 def gen(src):
     rows = collect_rows(src.func(LOOP, 'collect_funcs', 'Loop'))
     if not rows:
@@ -195,6 +261,9 @@ def gen(src):
     fs = src.func(PREL, 'finish_step', 'People')
     fs_calls = [unparse(s.value.func) for s in fs.body if isinstance(s, ast.Expr) and isinstance(s.value, ast.Call)]
     writes = life_writes(src.repo)
+    sim_mode, sim_guard = scale_mode(src.func(SIMF, 'finalize', 'Sim'), 'Sim.finalize')
+    mod_mode, mod_guard = scale_mode(src.func(MODF, 'finalize_results', 'Module'), 'Module.finalize_results')
+    sres = sim_results(src.func(SIMF, 'init_results', 'Sim'))
 
     def tbl(rs):
         return ',\n  '.join('(' + ', '.join(lean_str(x) for x in r) + ')' for r in rs)
@@ -214,8 +283,16 @@ def updateResultsWrites : List (String × String) := [
 def peopleFinishCalls : List String := [{', '.join(lean_str(c) for c in fs_calls)}]
 /-- writes to `people.ti_dead` / `people.alive` outside class `People`: (file, class, function, statement) -/
 def lifeStatusWritesOutsidePeople : List (String × String × String × String) := [{(chr(10) + '  ' + tbl(writes)) if writes else ''}]
+/-- how finalisation applies `pop_scale` to the recorded series: (mode, guard); mode "replace" = the series is replaced by the
+    product, "inplace" = the product is written into the existing array -/
+def finalizeSim : String × String := ({lean_str(sim_mode)}, {lean_str(sim_guard)})
+def finalizeModule : String × String := ({lean_str(mod_mode)}, {lean_str(mod_guard)})
+/-- `Sim.init_results`: (name, dtype, scale) of the sim-level series -/
+def simResults : List (String × String × String) := [
+  {tbl(sres)}]
 end StarsimModel.Gen
 '''
-    facts = dict(rows=[list(r) for r in rows], request_death=[rq_t, rq_v], step_die=[sd_sel, sd_write, sd_ret],
+    facts = dict(finalize_sim=[sim_mode, sim_guard], finalize_module=[mod_mode, mod_guard], sim_results=[list(r) for r in sres],
+                 rows=[list(r) for r in rows], request_death=[rq_t, rq_v], step_die=[sd_sel, sd_write, sd_ret],
                  update_results=ur_assign, finish_calls=fs_calls, life_writes=[list(w) for w in writes])
     return body, facts
